@@ -136,6 +136,58 @@ def rule_consumers(ctx, f):
                             ctx.check(rec, "C12-G1", b["id"] + "#downcast-mismatch",
                                       "when the cached object has another type the load does not recompute for the requested type "
                                       "(cached: error, uncached: value)", tt["span"], detail="downcast Err -> T::from_primitive")
+                if vn == "Err" and typed:
+                    # the cached error may be handed out unchanged only when THIS call computed it (the flag the compute closure sets): on
+                    # every other path through the arm the value is recomputed for the requested type
+                    region = reg | {ent[vn]}
+                    recompute = {r for r, tt in region_calls(b, region) if tt.get("callee") == "object::Object::from_primitive"}
+                    for r in region:
+                        for s in b["blocks"][r]["stmts"]:
+                            if s[0] == "assign" and s[2][0] == "aggregate" and s[2][1]["k"] == "closure":
+                                cb = f.body(s[2][1]["closure"])
+                                if cb is not None and any(tt.get("callee") == "object::Object::from_primitive" for _, tt in F.calls(cb)):
+                                    recompute.add(r)
+                    # flags: bool locals borrowed mutably into the closure handed to get_or_compute and set to true there
+                    gfl = Flow(b)
+                    flags = set()
+                    for a in gfl.origins(arg_local(gc[0][1], 2)) if arg_local(gc[0][1], 2) is not None else []:
+                        if a[0] == "agg" and a[1].get("k") == "closure":
+                            cb = f.body(a[1]["closure"])
+                            sets_true = set()
+                            cfl = Flow(cb) if cb is not None else None
+                            for i3, j3, s3 in (F.stmts(cb) if cb is not None else []):
+                                if s3[0] == "assign" and len(s3[1]) >= 2 and s3[1][-1][0] == "deref" and s3[2][0] == "use" and \
+                                        s3[2][1][0] == "const" and s3[2][1][1].get("bool") is True:
+                                    tgt = list(s3[1][:-1])
+                                    for _ in range(4):
+                                        d4 = [d_ for d_ in cfl.defs.get(tgt[0], []) if not d_[3]]
+                                        if tgt[0] != 1 and len(d4) == 1 and d4[0][0] == "assign" and d4[0][2][0] == "use" and F.op_place(d4[0][2][1]):
+                                            tgt = list(F.op_place(d4[0][2][1])) + tgt[1:]
+                                        else:
+                                            break
+                                    if tgt[0] == 1:
+                                        sets_true |= {e[1] for e in tgt[1:] if e[0] == "field"}
+                            for k3, o3 in enumerate(a[3][2]):
+                                l3 = F.op_local(o3)
+                                if k3 in sets_true and l3 is not None:
+                                    for d3 in gfl.defs.get(l3, []):
+                                        if d3[0] == "assign" and d3[2][0] == "ref" and len(d3[2][1]) == 1 and b["locals"][d3[2][1][0]]["s"] == "bool":
+                                            flags.add(d3[2][1][0])
+                    gates = []
+                    for r in region:
+                        t4 = b["blocks"][r]["term"]
+                        if t4["k"] == "switch" and F.op_place(t4["discr"]):
+                            src = gfl.resolve(F.op_place(t4["discr"]))
+                            if src[0] in flags and len(src) == 1:
+                                a4 = {a_[0]: a_[1] for a_ in t4["arms"]}
+                                if 0 in a4:
+                                    gates.append((r, a4[0]))
+                    exits_ = [x for x in cfg.exits]
+                    okg = all(cfg.all_paths_pass(ft, exits_, recompute) for r, ft in gates) and \
+                        all(cfg.all_paths_pass(ent[vn], exits_, recompute | {r for r, ft in gates}) for _ in [0])
+                    ctx.check(okg and bool(recompute), "C12-G1", b["id"] + "#Err-arm-recomputes", "a cached error can be handed out without recomputation on a path where this call "
+                              "did not compute it itself (the flag set by the compute closure is false there): a load as another type that failed earlier decides the answer",
+                              t["span"], detail="Err: `computed` -> shared error; otherwise recompute for T")
                 ctx.check(typed, "C12-G1", b["id"] + "#%s-arm" % vn,
                           "the cached %s entry is returned without a type check or recomputation: a load as type A that failed makes a later "
                           "load of the same reference as type B fail with A's error (uncached: B is computed)" % vn, t["span"],
@@ -173,6 +225,17 @@ def rule_adapters(ctx, f):
                 c_ok = fl.derives_from_arg(arg_local(t, 2), 3)
                 ok = k_ok and c_ok
             ctx.check(ok, "C12-G2", im["self"]["s"] + "#forwards", "the cache adapter does not forward (key, compute) unchanged", b["span"], detail="self.get(key, compute)")
+            # an implementation that keeps entries also drops them when told to (update / save rely on it: C12-PAIR proves they call clear)
+            cid = [p_ for n_, p_ in im["items"] if n_ == "clear"]
+            cb = f.body(cid[0]) if cid else None
+            if cb is None:
+                ctx.lost("C12-G2", im["id"] + "::clear")
+            else:
+                ccfg = CFG(cb)
+                cl = [bi for bi, t in F.calls(cb) if last_seg(F.callee_name(t)) in ("clear", "invalidate_all", "retain", "drain") and "SyncCache" in (F.callee_name(t) + str(t.get("self_ty")) + " ".join(a_["s"] for a_ in t.get("arg_tys", [])))]
+                ctx.check(bool(cl) and ccfg.all_paths_pass(0, ccfg.exits, set(cl)), "C12-G2", im["self"]["s"] + "#clear-clears", "clear() of the caching implementation does not "
+                          "empty the underlying cache on every path: after update / save a typed load keeps returning the object cached before the write", cb["span"],
+                          detail="(**self).clear()")
 
 
 def rule_downcast(ctx, f):
